@@ -5,6 +5,7 @@ ROOT = os.path.dirname(os.path.dirname(os.path.abspath(__file__)))
 props = [json.loads(l) for l in open(os.path.join(ROOT, "properties.jsonl"))]
 reg = json.load(open(os.path.join(ROOT, "lean", "registry.json")))
 notes = json.load(open(os.path.join(ROOT, "tools", "manifest_notes.json")))
+ties = json.load(open(os.path.join(ROOT, "ties.json")))
 checks, na = [], []
 for p in props:
     pid = p["id"]
@@ -16,8 +17,11 @@ for p in props:
     thms = [t["name"].replace("Low.", "") for t in r.get("theorems", [])]
     if r.get("complete"):
         cat = "proof"
+        tied = [f for f in ties.get("properties", {}).get(pid, [])]
         text = ("Every clause of the property is a kernel-checked Lean 4 theorem about the executable model (%s), for all inputs with no size bound; "
-                "the model is tied to the Go code on every run by differential execution of the compiled model and of the executable specification against the real functions." % ", ".join(thms))
+                "the model is tied to the Go code on every run (1) by a go/ssa-to-Lean translator that regenerates the definitions of %d functions of this property from /repo's current source, "
+                "with kernel-checked tie theorems (generated definition = model) and end-to-end theorems (the property's clauses stated on the regenerated definitions only) re-checked against them, and "
+                "(2) by differential execution of the compiled model and of the executable specification against the real functions." % (", ".join(thms), len(tied)))
     elif thms:
         cat = n.get("category", "translation_validation")
         text = ("Partly proved: kernel-checked theorems %s; clauses not yet proved: %s. Until then the deciding check is the correspondence of model and executable specification with the real code." % (", ".join(thms), "; ".join(r.get("open", [])) or "see DESIGN.md"))
@@ -31,14 +35,14 @@ for p in props:
         evidence_file="evidence/%s.json" % pid, replay_cmd_template="./check --replay {path}",
         engine="lean-proof+correspondence",
         level_claimed=dict(category=cat, text=text, design_ref="DESIGN.md 7.%d" % int(pid[1:])),
-        level_note=n.get("level_note", "Trusted: Lean kernel (axioms propext, Classical.choice, Quot.sound only); the hand-written model's fidelity rests on the correspondence check (differential testing, bounded by its generators); specifications in LowModel/Spec.lean; Go stdlib semantics as modelled. See DESIGN.md section 6."),
-        technique=n.get("technique", "Lean 4 kernel-checked theorems about an executable model; model tied to the Go code by a differential correspondence check")))
+        level_note=n.get("level_note", "Trusted: Lean kernel (axioms propext, Classical.choice, Quot.sound only); the go/ssa-to-Lean translators and their vocabulary (LowModel/GoSem*.lean) for the regenerated ties; where a function has no regenerated tie the hand-written model's fidelity rests on the correspondence check (differential testing, bounded by its generators); specifications in LowModel/Spec.lean; Go stdlib semantics as modelled. See DESIGN.md section 6."),
+        technique=n.get("technique", "Lean 4 kernel-checked theorems about an executable model; model tied to the Go code by Lean definitions regenerated from the go/ssa form of the source on every run (tie and end-to-end theorems re-checked) and by a differential correspondence check")))
 m = dict(version=1, setup_cmd="./setup.sh",
          hooks=dict(guard="verif", enable="go build -tags verif (the harness module replaces github.com/openacid/low by /repo)",
                     baseline_off_cmd="cd /repo && GOFLAGS=-mod=mod GOPROXY=off GOSUMDB=off go test -vet=off -count=1 ./...",
                     source_commits=["6ed7764"], add_only=True),
          engines=[dict(name="lean-proof+correspondence", path="check", serves_properties=[c["property_id"] for c in checks],
-                       kind_free_text="Lean 4 kernel-checked theorems about a hand-written executable model (lean/LowModel, lean/LowProofs); Go harness vs compiled Lean driver differential correspondence (harness/, check)")],
+                       kind_free_text="Lean 4 kernel-checked theorems about a hand-written executable model (lean/LowModel, lean/LowProofs); Lean definitions regenerated from go/ssa on every run with tie and end-to-end theorems (tools/ssa2lean*, lean/Generated, lean/LowProofs/Tie*, E2E*); Go harness vs compiled Lean driver differential correspondence (harness/, check)")],
          checks=checks, notes="see DESIGN.md; fixed defects in KNOWN_FINDINGS.txt and findings/", not_applicable=na)
 json.dump(m, open(os.path.join(ROOT, "MANIFEST.json"), "w"), indent=1)
 print("checks:", len(checks), "proof:", sum(1 for c in checks if c["level_claimed"]["category"] == "proof"), "n/a:", len(na))
